@@ -33,7 +33,7 @@ STUBS = ["finder.set / report.set -> order-permuting set shim; FakeCodeBase iter
 ASSUMPTIONS = ["real PYTHONHASHSEED / scandir variation across processes is modelled, not executed",
                "IEEE rounding differences between summation orders are outside (exact reals)",
                "once the permutation indices are decided the real code runs untraced on that leaf"]
-BOUNDS = {"quick": "find/: 2 scenarios x 6 platform orders x 6 enumeration orders x 6 set-iteration orders; summary/: all insertion orders of "
+BOUNDS = {"quick": "find/: 4 scenarios x 6 platform orders x 6 enumeration orders x 6 set-iteration orders; summary/: all insertion orders of "
                    "4-key tables; dup/: 4 files, 24 enumeration orders x 6 set orders; metrics/: every insertion order of every 3-key "
                    "shape over 2 platforms and 4-key shapes over 3 platforms, all counts",
           "thorough": "same plus 5-key tables"}
@@ -362,8 +362,8 @@ def replay(obd, cex):
 
 def obligations(tier, known):
     obs = []
-    for t, asg in (("shared_define", [0, 1, 2]), ("inc_paths", [0, 0, 1])):
-        obs.append(Ob(id="find/" + t, kind="ch", module=__name__, func="h_find", params=dict(t=t, asg=asg, neo=6), timeout=600,
+    for t, asg in (("shared_define", [0, 1, 2]), ("inc_paths", [0, 0, 1]), ("same_file_inc", [0, 1, 2]), ("same_file_inc", [2, 0, 0])):
+        obs.append(Ob(id="find/%s/%s" % (t, "".join(map(str, asg))), kind="ch", module=__name__, func="h_find", params=dict(t=t, asg=asg, neo=6), timeout=600,
                       group="find"))
     for i in range(len(TABLES)):
         expect = "witness:C14-summary-order" if "C14-summary-order" in known else "hold"
